@@ -28,6 +28,8 @@ the slot assertions), reads of the value's own memory through pointer chains (th
 findings C08-* are about those), the Go runtime (stack growth, garbage collection during callbacks;
 exercised by execution).
 -/
+import GoJson.Model.Keep
+import GoJson.Gen.Proto
 import GoJson.Lemmas.Frames3
 
 namespace GoJson.Props.C08
@@ -140,5 +142,31 @@ example : Runs (fun _ => uRec) uTop
 /-- a two-node cycle is reported, a chain of two is encoded (StartDetectingCyclesAfter = 3 here) -/
 example : visit (fun p => if p = 0 then [1] else [0]) 3 (3 + 2 + 2) 0 [] 0 = some false := by decide
 example : visit (fun p => if p = 0 then [1] else []) 3 (3 + 2 + 2) 0 [] 0 = some true := by decide
+
+/-! ### what the garbage collector can reach during a run -/
+
+open GoJson.Model.Keep in
+/-- **The value and the program stay reachable for the whole run**, in each of the three entry
+functions as they are in the source now (regenerated `Gen.keep_*`): after `Init` has emptied
+`KeepRefs` and before the interpreter starts, the program is appended; the value is appended too, or
+used again behind the run. -/
+theorem entry_points_keep_value_and_program :
+    safe (Gen.keep_encode.map parse) = true ∧
+    safe (Gen.keep_encodeIndent.map parse) = true ∧
+    safe (Gen.keep_encodeNoEscape.map parse) = true := by decide
+
+/-- **A program entered for an interface value is kept as well**, in all four interpreters: the append
+follows the compile step (the only other appends are the interface word and the map context). -/
+theorem interface_programs_are_kept :
+    Gen.keep_vm = ["Keep up", "Compile", "Keep unsafe.Pointer(ifaceCodeSet)", "Keep unsafe.Pointer(mapCtx)"] ∧
+    Gen.keep_vm_indent = Gen.keep_vm ∧ Gen.keep_vm_color = Gen.keep_vm ∧ Gen.keep_vm_color_indent = Gen.keep_vm := by
+  decide
+
+open GoJson.Model.Keep in
+/-- the orders that were wrong: the value appended before `Init` (a seeded change), and the program
+not appended at all (the code before the repair: a collection during a nested program freed it) -/
+theorem value_kept_before_init_is_lost :
+    safe [.compile, .keep [.value], .init, .run] = false ∧
+    safe [.compile, .init, .keep [.value], .run] = false := by decide
 
 end GoJson.Props.C08
